@@ -222,8 +222,9 @@ OuterLoop:
 
 			url.Init()
 			rl.bindPolicyToURL(url)
+			// the previous generation keeps its limiter too, requests which
+			// are still running on it must be able to finish.
 			url.rl = prev.rl
-			prev.rl = nil
 			rl.setStateListenerForURL(url)
 			continue OuterLoop
 		}
